@@ -2,11 +2,21 @@
 (* C10, second half: which primitive steps HVSR preprocessing performs, and in
    which order, for every combination of settings.  The result is a sequence of
    step descriptors that the harness executes with the library's own primitives. *)
-EXTENDS Integers, Sequences, TLC, Json
+EXTENDS Integers, Sequences, FiniteSets, TLC, Json
 
 (* orient -> filter the whole record -> split -> detrend each window *)
 Steps(orient, filt, split, detrend) ==
     (IF orient THEN <<"orient">> ELSE <<>>) \o (IF filt THEN <<"filter">> ELSE <<>>) \o
+    (IF split THEN <<"split">> ELSE <<>>) \o (IF detrend THEN <<"detrend_each">> ELSE <<>>)
+
+(* PSD preprocessing (C17): orient -> filter the whole record -> [remove the mean and taper ONCE when a
+   response is removed or the record is differentiated] -> remove the instrument response (then repeat
+   the filter) -> differentiate -> split -> detrend each window *)
+PsdSteps(orient, filt, resp, diff, split, detrend) ==
+    (IF orient THEN <<"orient">> ELSE <<>>) \o (IF filt THEN <<"filter">> ELSE <<>>) \o
+    (IF resp \/ diff THEN <<"demean", "taper">> ELSE <<>>) \o
+    (IF resp THEN <<"remove_response">> \o (IF filt THEN <<"filter">> ELSE <<>>) ELSE <<>>) \o
+    (IF diff THEN <<"differentiate">> ELSE <<>>) \o
     (IF split THEN <<"split">> ELSE <<>>) \o (IF detrend THEN <<"detrend_each">> ELSE <<>>)
 
 CONSTANTS Orients, Filters, Splits, Detrends
@@ -26,5 +36,15 @@ OrderOK == PDone =>
     /\ (Pos("orient") # 0 => Pos("orient") = 1)
     /\ (Pos("detrend_each") # 0 => Pos("detrend_each") = Len(steps))
     /\ (Pos("filter") # 0 /\ Pos("split") # 0 => Pos("filter") < Pos("split"))
+\* PSD chain: every combination of response / differentiation on top of the same settings
+Count(q, x) == Cardinality({ i \in 1..Len(q) : q[i] = x })
+PsdOrderOK == PDone => \A resp \in BOOLEAN, diff \in BOOLEAN :
+    LET q == PsdSteps(o # "none", f # "none", resp, diff, s # "none", d # "none")
+    IN  /\ Count(q, "taper") = (IF resp \/ diff THEN 1 ELSE 0)          \* tapered exactly once
+        /\ Count(q, "demean") = Count(q, "taper")
+        /\ Count(q, "differentiate") = (IF diff THEN 1 ELSE 0)
+        /\ (resp /\ diff => \E i, j \in 1..Len(q) : q[i] = "remove_response" /\ q[j] = "differentiate" /\ i < j)
+PsdExport == PDone => PrintT(ToJson([psd |-> TRUE, o |-> o, f |-> f, s |-> s, d |-> d,
+                 chains |-> [resp \in {0, 1} |-> [diff \in {0, 1} |-> PsdSteps(o # "none", f # "none", resp = 1, diff = 1, s # "none", d # "none")]]]))
 PExport == PDone => PrintT(ToJson([o |-> o, f |-> f, s |-> s, d |-> d, steps |-> steps]))
 =============================================================================
